@@ -411,7 +411,9 @@ def _hs(r):
 def _relpath_ok(p):
     if p is None or p == "":
         return False
-    if p.startswith("/") or re.match(r"^[A-Za-z]:", p) or "\\" in p:
+    # (a backslash is an ordinary character of a POSIX file name; whether every component names the real entry is
+    # decided by the record-set clauses, which map components back to the names on disk)
+    if p.startswith("/") or re.match(r"^[A-Za-z]:[\\/]", p):
         return False
     parts = p.split("/")
     return ".." not in parts and "" not in parts
